@@ -72,3 +72,10 @@ impl LoadedSignal {
         (self.flags & NO_READER) != 0
     }
 }
+
+#[cfg(multiqueue2_verif)]
+impl AtomicSignal {
+    pub fn verif_addr(&self) -> usize {
+        &self.flags as *const AtomicUsize as usize
+    }
+}
